@@ -32,7 +32,7 @@ func (r *vssRecorder) FlagMisbehavior(i int, log string) {
 	r.events = append(r.events, fmt.Sprintf("flag %d", i))
 }
 
-var vssVectorKinds = []string{"honest", "alt", "wrongSizeShort", "wrongSizeLong", "missingElement", "badEncoding", "offCurve", "notInG2", "smallOrderAnnihilated", "empty", "unknownTag"}
+var vssVectorKinds = []string{"honest", "alt", "wrongSizeShort", "wrongSizeLong", "missingElement", "badEncoding", "offCurve", "notInG2", "smallOrderAnnihilated", "cancellingOutsideG2", "empty", "unknownTag"}
 var vssShareKinds = []string{"honest", "alt", "plusOne", "zero", "geR", "wrongSize", "badTag", "empty"}
 
 func vssDeal(g *gen.G, n, t, dealer int, seed []byte) *vssRecorder {
@@ -79,6 +79,18 @@ func vssVector(g *gen.G, kind string, hon, alt *vssRecorder, t, me int, swapped 
 		}
 		t13, _ := bls381.G2SmallOrderPoint(13, []byte{1})
 		copy(v[last:last+96], bls381.G2Compress(pt.Add(t13), swapped))
+	case "cancellingOutsideG2":
+		// A_0 + x·T and A_1 − T with T in E2 outside G2 and x the receiver's abscissa: both entries are canonical points
+		// outside G2, their contributions cancel in the receiver's own public share (so its honest share still matches),
+		// and every test of a sum of entries at abscissa x passes; the vector is invalid all the same
+		a0, e0 := bls381.G2Decompress(v[1:97], swapped)
+		a1, e1 := bls381.G2Decompress(v[97:193], swapped)
+		if e0 != nil || e1 != nil {
+			g.Fatalf("honest vector element does not decode: %v %v", e0, e1)
+		}
+		tp := bls381.G2TorsionPoint([]byte{byte(me), 7})
+		copy(v[1:97], bls381.G2Compress(a0.Add(tp.Mul(big.NewInt(int64(me+1)))), swapped))
+		copy(v[97:193], bls381.G2Compress(a1.Add(tp.Neg()), swapped))
 	case "empty":
 		v = []byte{}
 	case "unknownTag":
@@ -224,5 +236,5 @@ func TestC08_PlainVSS(t *testing.T) {
 		}
 		g.NonTrivial()
 	})
-	gen.Exhaustive("C08(g): for the drawn (n, t, receiver, seeds): every order of {V,S}, {V,S,V'}, {V,S,S'}, {V,S,V',S'} (38 orders) × 11 kinds of vector-channel message × 8 kinds of share")
+	gen.Exhaustive("C08(g): for the drawn (n, t, receiver, seeds): every order of {V,S}, {V,S,V'}, {V,S,S'}, {V,S,V',S'} (38 orders) × 12 kinds of vector-channel message × 8 kinds of share")
 }
